@@ -102,6 +102,11 @@ def schedules_for(K, tier, rng):
                         out.append((LIMIT, [{'at': k, 'kind': kind, 'persistent': persistent, 'values': pol, 'tfrac': tf}]))
             for tf in (0.9, 1.1):
                 out.append((LIMIT, [{'at': k, 'kind': 'Incumbent', 'persistent': persistent, 'tfrac': tf}]))
+    # boundary value: a time limit of 0 (every run exceeds it); only with the fault at the first solve,
+    # so that no real solve runs under a zero limit before it
+    for kind in KINDS + ['Incumbent']:
+        for persistent in (False, True):
+            out.append((0, [{'at': 0, 'kind': kind, 'persistent': persistent, 'values': 'zeros', 'tfrac': 1.0}]))
     pairs = []
     kinds5 = KINDS + ['Incumbent']
     for k1, k2 in itertools.combinations(range(K), 2):
@@ -160,7 +165,8 @@ def run_sequence(cs, ctx):
             if info['applied'] >= 2:
                 ctx.cnt('pair_schedules_both_faults_reached')
         for f in faults:
-            ctx.cov('%s_%s_%s' % (f['kind'].replace(' ', ''), 'persistent' if f['persistent'] else 'transient', 'limit' if limit else 'nolimit'))
+            ctx.cov('%s_%s_%s' % (f['kind'].replace(' ', ''), 'persistent' if f['persistent'] else 'transient',
+                                  'nolimit' if limit is None else 'limit' if limit else 'limit0'))
             ctx.cov('ordinal_%d' % min(f['at'], 10))
         for mon, msg in probs:
             ctx.finding(en.F('C14', mon, '%s | schedule %s on %s' % (msg, desc, argv[2:]), schedule=desc,
